@@ -390,6 +390,8 @@ class CallMixin(object):
 
     def materialise(self, it, node, kind='list'):
         """list(it) / sorted(it) / tuple(it): consume an iterable into a ListObj."""
+        if isinstance(it, Phi) and len(it.alts) == 1:
+            it = it.alts[0][0]
         if isinstance(it, ListObj) and not any(isinstance(x, GenObj) for x in it.items):
             return ListObj(list(it.items), it.open, self.cur, kind)
         if isinstance(it, TupleT):
